@@ -12,6 +12,7 @@ from .C05 import d1_contiguity, d3_descriptor_updates, d4_cutpoint
 from .C09 import d3_checker
 from .C20 import fold
 from ._shared import raised_names
+from . import _trunc
 
 EXPLANATION = (
     "(D1) RaggedArray.__getitem__: the integer-type gate (TypeError) dominates the index read, and the "
@@ -174,50 +175,31 @@ def truncate_rules(ctx):
     f = ctx.repo.func('raggedarray.truncate_raggedarray')
     trunc = ctx.repo.func('array.truncate_array')
     tcalls = [n for n, cal in ctx.E.callees(f) if cal is trunc]
-    gates = [n for n in own_nodes(f.node) if isinstance(n, ast.If) and always_raises(n.body)
-             and norm(n.test) == 'not isinstance(index, int)' and 'TypeError' in raised_names(n.body)]
-    ctx.decide(bool(gates) and all(must_precede(f, t, gates) for t in tcalls), 'R-DOM', 'D6', f, gates[0] if gates else None, 'int-gate',
+    obj, index = f.params[0], f.params[1]
+    ctx.decide(bool(tcalls) and _trunc.int_gate(f, tcalls, index), 'R-DOM', 'D6', f, tcalls[0] if tcalls else None, 'int-gate',
                'truncate_raggedarray: a non-int index raises TypeError before anything is truncated', detail='no int gate before truncation')
-    nl = [v for v, _ in defs_of(f.node, 'newlen')]
-    ok = len(nl) == 1 and isinstance(nl[0], ast.Call) and dotted(nl[0].func) == 'len' and \
-        isinstance(nl[0].args[0], ast.Subscript) and isinstance(nl[0].args[0].slice, ast.Slice) and \
-        nl[0].args[0].slice.lower is None and norm(nl[0].args[0].slice.upper) == 'index' and not defs_of(f.node, 'index')
-    ctx.decide(ok, 'R-FLOW', 'D6', f, nl[0] if nl else None, 'newlen-by-numpy-slicing',
+    nls = _trunc.find_newlen(f, index)
+    ctx.decide(len(nls) == 1, 'R-FLOW', 'D6', f, nls[0][1] if nls else None, 'newlen-by-numpy-slicing',
                'truncate_raggedarray: the new length is len(indices_map[:index]) with index verbatim (list-slicing semantics, '
                'negative indices beyond -len give 0)',
                detail='new length computed by hand-written index arithmetic: negative indices beyond -len behave differently from slicing')
-    guard = None
-    for t in tcalls:
-        for p, fld in enclosing(f.node, t):
-            if isinstance(p, ast.If) and 'newlen' in names_in(p.test) and 'len(ra)' in norm(p.test):
-                guard = (p, fld)
-    if guard is None:
-        ctx.bad('R-DOM', 'D6', f, None, 'shrink-guard', 'truncate_raggedarray truncates only when 0 <= newlen < len(ra)', detail='no guard')
+    if len(nls) != 1:
         return
-    g, fld = guard
-    wrong, unknown = [], False
-    for o in weak_orderings(['zero', 'newlen', 'L']):
-        env = {'newlen': o['newlen'] - o['zero'], 'len(ra)': o['L'] - o['zero']}
-        if env['len(ra)'] < 0:
-            continue
-        try:
-            v = bool(fold(g.test, env))
-        except Exception:
-            unknown = True
-            continue
-        runs = v if fld == 'body' else not v
-        spec = 0 <= env['newlen'] < env['len(ra)']
-        if runs != spec:
-            wrong.append(f"newlen={env['newlen']}, len={env['len(ra)']}: truncates={runs}, spec={spec}")
+    newlen = nls[0][0]
+    itr = [t for t in tcalls if t.args and subarray_role(ctx, t.args[0], f) == 'INDICESDIR']
+    if not itr:
+        ctx.bad('R-DOM', 'D6', f, None, 'shrink-guard', 'truncate_raggedarray truncates only when 0 <= newlen < len(ra)', detail='no truncation of the indices')
+        return
+    rows = _trunc.shrink_rows(f, itr[0], newlen, obj, index)
+    wrong, unknown = _trunc.judge(rows, 'truncates')
+    inst = f'truncate_raggedarray truncates exactly when 0 <= {newlen} < len({obj}) (path conditions folded on {len(rows)} order types)'
     if unknown:
-        ctx.assume('R-TABLE', 'D6', f, g, 'shrink-guard', 'truncation runs exactly when 0 <= newlen < len(ra)', detail='guard not a pure comparison')
+        ctx.assume('R-TABLE', 'D6', f, itr[0], 'shrink-guard', inst, detail='guard not a pure comparison')
     else:
-        ctx.decide(not wrong, 'R-TABLE', 'D6', f, g, 'shrink-guard',
-                   f'truncate_raggedarray truncates exactly when 0 <= newlen < len(ra) (`{norm(g.test)}` on all order types)',
-                   detail='; '.join(wrong[:3]))
-    other = g.orelse if fld == 'body' else g.body
-    ctx.decide(always_raises(other) and 'IndexError' in raised_names(other), 'R-DOM', 'D6', f, g, 'else-indexerror',
-               'otherwise IndexError is raised', detail='no IndexError branch')
+        ctx.decide(not wrong, 'R-TABLE', 'D6', f, itr[0], 'shrink-guard', inst, detail='; '.join(wrong[:3]))
+    badrej = _trunc.rejects_with(rows, 'IndexError')
+    ctx.decide(not badrej, 'R-DOM', 'D6', f, itr[0], 'else-indexerror', 'otherwise IndexError is raised',
+               detail='; '.join(badrej[:2]) or 'no IndexError branch')
     # D7: truncate_array refuses an index for which a[:index] is not strictly shorter (C03); the values
     # cut point equals len(values) whenever only zero-length subarrays are removed, and at this point the
     # indices have already been truncated -> the call must not be reached with cut point == len(values)
@@ -264,7 +246,7 @@ def truncate_rules(ctx):
     for t in tcalls:
         if t.args and subarray_role(ctx, t.args[0], f) == 'INDICESDIR':
             a = get_arg(t, 1, 'index')
-            ctx.decide(a is not None and norm(a) == 'newlen', 'R-FLOW', 'D6', f, t, 'indices-to-newlen',
+            ctx.decide(a is not None and norm(a) == newlen, 'R-FLOW', 'D6', f, t, 'indices-to-newlen',
                        'the indices array is truncated to newlen', detail=f'index={norm(a) if a is not None else None}')
 
 
